@@ -323,3 +323,118 @@ PROBES_C18 = [
     ("cbrt", "[Math.cbrt(27), Math.cbrt(1e300), Math.cbrt(-8), 1 / Math.cbrt(-0), Math.cbrt(1e-300)].join()", "3,1e+100,-2,-Infinity,1e-100"),
 ]
 groups.register_probes("C18", PROBES_C18)
+
+
+# ---- bounded: roots within one ulp, decided exactly ------------------------------------------------------------------------
+@groups.group(id="C18.bounded.roots", prop="C18", kind="B", functions=["microjs.context:Context._create_math_object.<cbrt_fn>", "microjs.context:Context._create_math_object.<sqrt_fn>"])
+def c18_roots(tier="quick", seed=0):
+    """Math.cbrt and Math.sqrt over doubles of every magnitude (random mantissas x random exponents, exact cubes and squares and
+    their neighbours, the inputs on which host libraries are known to be off): the result r is within one ulp of the real
+    root, decided in exact rational arithmetic ((r - ulp)^k <= x <= (r + ulp)^k), and exact for exact powers"""
+    import math, random
+    from fractions import Fraction
+    from microjs import Context
+    r_ = random.Random(seed)
+    xs = [198.65319756135546, 3.4883538209925444e298, 1e-5, 2.0, 3.0, 10.0, 0.1, 1e300, 1e-300, 5e-324, 1.7976931348623157e308, 2.2250738585072014e-308, 7.0, 1 / 3, 0.7, 123456789.0]
+    for k in range(1, 60):
+        xs += [float(k ** 3), float(k ** 3) + math.ulp(float(k ** 3)), float(k ** 2), math.nextafter(float(k ** 2), 0.0), float(k) ** -3, 10.0 ** k, 10.0 ** -k, 2.0 ** (3 * k), 2.0 ** (3 * k + 1)]
+    for _ in range(1500 if tier == "quick" else 40000):
+        xs.append(math.ldexp(r_.random() + 0.5, r_.randrange(-1073, 1023)))
+    c = Context(time_limit=120)
+    out = []
+    for fn, k in (("cbrt", 3), ("sqrt", 2)):
+        bad = None
+        n = 0
+        for i in range(0, len(xs), 500):
+            part = xs[i:i + 500]
+            vals = part + ([-x for x in part] if fn == "cbrt" else [])
+            c.set("xs", vals)
+            got = c.eval(f"xs.map(function (x) {{ return Math.{fn}(x) }})")
+            for x, r in zip(vals, got):
+                n += 1
+                if isinstance(r, bool) or not isinstance(r, (int, float)) or r != r or r in (math.inf, -math.inf):
+                    bad = bad or (x, r, "not a finite number")
+                    continue
+                r = float(r)
+                ax, ar = abs(x), abs(r)
+                if (r < 0) != (x < 0) and x != 0:
+                    bad = bad or (x, r, "wrong sign")
+                    continue
+                u = math.ulp(ar)
+                lo, hi = Fraction(ar) - Fraction(u), Fraction(ar) + Fraction(u)
+                ok = (lo ** k if lo > 0 else 0) <= Fraction(ax) <= hi ** k
+                root = round(ax ** (1.0 / k))
+                exact = [t for t in (root - 1, root, root + 1) if t >= 0 and float(t) ** k == ax and t ** k == int(ax)] if ax == int(ax) and ax < 2 ** 53 else []
+                if exact and ar != float(exact[0]):
+                    ok = False
+                if not ok and bad is None:
+                    bad = (x, r, f"more than one ulp from the real root" if not exact else f"the exact root is {exact[0]}")
+        out.append(ob(f"C18.bounded.roots.{fn}", bad is None, "B", f"{n} arguments" if bad is None else f"Math.{fn}({bad[0]!r}) = {bad[1]!r}: {bad[2]}",
+                      witness=(f"Math.{fn}({bad[0]!r})" if bad else None), confirmed=True if bad else None, domain=n))
+    return out
+
+
+# ---- bounded: every Math function within one ulp of the real function, against 60-digit arithmetic ---------------------------
+def _ulp_chunk(job):
+    import math, random
+    import mpmath
+    from microjs import Context
+    fn, seed, count = job
+    mpmath.mp.dps = 60
+    r_ = random.Random(seed)
+    ref = {"sin": mpmath.sin, "cos": mpmath.cos, "tan": mpmath.tan, "asin": mpmath.asin, "acos": mpmath.acos, "atan": mpmath.atan, "exp": mpmath.exp, "expm1": mpmath.expm1,
+           "log": mpmath.log, "log1p": mpmath.log1p, "log2": lambda x: mpmath.log(x, 2), "log10": mpmath.log10, "sqrt": mpmath.sqrt, "cbrt": (lambda x: mpmath.sign(x) * mpmath.cbrt(abs(x))),
+           "atan2": mpmath.atan2, "pow": mpmath.power, "hypot": mpmath.hypot}
+
+    def arg(kind):
+        if kind == "any":
+            return math.ldexp(r_.random() + 0.5, r_.randrange(-60, 60)) * r_.choice((1, -1))
+        if kind == "wide":
+            return math.ldexp(r_.random() + 0.5, r_.randrange(-1000, 1000)) * r_.choice((1, -1))
+        if kind == "unit":
+            return r_.choice((r_.uniform(-1, 1), math.ldexp(r_.random(), r_.randrange(-60, 0)) * r_.choice((1, -1)), 1 - math.ldexp(r_.random(), -r_.randrange(1, 50))))
+        if kind == "pos":
+            return math.ldexp(r_.random() + 0.5, r_.randrange(-1000, 1000))
+        if kind == "exp":
+            return r_.choice((r_.uniform(-745, 709), math.ldexp(r_.random(), r_.randrange(-60, 0)) * r_.choice((1, -1))))
+        if kind == "gt-1":
+            return r_.choice((r_.uniform(-1, 10), -1 + math.ldexp(r_.random(), -r_.randrange(1, 50)), math.ldexp(r_.random(), r_.randrange(-60, 0)) * r_.choice((1, -1)), math.ldexp(r_.random() + 0.5, r_.randrange(0, 1000))))
+        raise KeyError(kind)
+    domains = {"sin": ("any",), "cos": ("any",), "tan": ("any",), "asin": ("unit",), "acos": ("unit",), "atan": ("wide",), "exp": ("exp",), "expm1": ("exp",), "log": ("pos",), "log1p": ("gt-1",),
+               "log2": ("pos",), "log10": ("pos",), "sqrt": ("pos",), "cbrt": ("wide",), "atan2": ("wide", "wide"), "hypot": ("wide", "wide"), "pow": ("pos", "any")}
+    args = [tuple(arg(k) for k in domains[fn]) for _ in range(count)]
+    if fn == "pow":
+        args = [(math.ldexp(r_.random() + 0.5, r_.randrange(-8, 8)), r_.uniform(-40, 40)) for _ in range(count)]
+    c = Context(time_limit=120)
+    c.set("xs", [list(a) for a in args])
+    got = c.eval(f"xs.map(function (a) {{ return Math.{fn}.apply(null, a) }})")
+    bad, worst = None, 0.0
+    for a, g in zip(args, got):
+        want = ref[fn](*[mpmath.mpf(x) for x in a])
+        if isinstance(g, bool) or not isinstance(g, (int, float)) or g != g:
+            bad = bad or (a, g, "not a number")
+            continue
+        w = float(want)
+        if w in (math.inf, -math.inf) or w == 0 or abs(w) < 2.3e-308:
+            continue                                   # (overflow / underflow edges are judged by the special-value table)
+        if g in (math.inf, -math.inf):
+            bad = bad or (a, g, f"real value {w!r}")
+            continue
+        err = abs(mpmath.mpf(float(g)) - want) / mpmath.mpf(math.ulp(w))
+        worst = max(worst, float(err))
+        if err > 1 and bad is None:
+            bad = (a, g, f"{float(err):.2f} ulp from the real value {w!r}")
+    return fn, len(args), bad, worst
+
+
+@groups.group(id="C18.bounded.math-ulp", prop="C18", kind="B", functions=["microjs.context:Context._create_math_object"])
+def c18_math_ulp(tier="quick", seed=0):
+    """'within one ulp elsewhere': sin cos tan asin acos atan atan2 exp expm1 log log1p log2 log10 sqrt cbrt hypot pow on random
+    arguments over their whole domains (all magnitudes, near the domain edges), against mpmath at 60 digits"""
+    import multiprocessing as mp
+    fns = ["sin", "cos", "tan", "asin", "acos", "atan", "exp", "expm1", "log", "log1p", "log2", "log10", "sqrt", "cbrt", "atan2", "hypot", "pow"]
+    count = 1500 if tier == "quick" else 30000
+    with mp.get_context("fork").Pool(16) as pool:
+        res = pool.map(_ulp_chunk, [(f, seed * 31 + i, count) for i, f in enumerate(fns)])
+    return [ob(f"C18.bounded.math-ulp.{fn}", bad is None, "B", f"{n} arguments, largest error {worst:.2f} ulp" if bad is None else f"Math.{fn}{tuple(bad[0])!r} = {bad[1]!r}: {bad[2]}",
+               witness=(f"Math.{fn}({', '.join(repr(x) for x in bad[0])})" if bad else None), confirmed=True if bad else None, domain=n) for fn, n, bad, worst in res]
